@@ -144,6 +144,8 @@ class Bound:
 
     def inv_items(self, assume_only=False):
         for label, tup in self.spec.inv.items():
+            if len(tup) > 2 and tup[2].get("defer"):
+                continue  # written down, not yet discharged: decided by the bounded stand-in only
             if assume_only and len(tup) > 2 and not tup[2].get("assume", True):
                 continue
             yield label, tup[0], (tup[1] if len(tup) > 1 else None)
@@ -326,7 +328,10 @@ def run_indicator_task(source, contracts, loops, spec, variant, natives=None, ti
                 bounds.append(sb)
             N = env["N"]
             for b in bounds:
-                lim = (lambda j: z3.And(j >= 0, j <= i)) if b.role == "prior" else (lambda j: z3.And(j >= 0, j < i))
+                if b.role == "prior" or mode != "calculate":
+                    lim = (lambda j: z3.And(j >= 0, j <= i))
+                else:
+                    lim = (lambda j: z3.And(j >= 0, j < i))
                 for label, src, _ in b.inv_items(assume_only=True):
                     st.qassumes.append(QAssume(lambda j, b=b, src=src, lim=lim: z3.Implies(lim(j), b.clause(st, src, j)),
                                                f"Inv[{_short(b.N)}]:{label}"))
@@ -336,10 +341,17 @@ def run_indicator_task(source, contracts, loops, spec, variant, natives=None, ti
                 else:
                     st.qassumes.append(QAssume(lambda j, b=b: z3.Implies(z3.And(j >= 0, j < ser.length), b.contiguity(st, j)), f"inputs[{_short(b.N)}]"))
             which = top.which
+            data_keys = [SpecEval(ex, st, env).ev(h) for h in spec.helpers]
             if mode == "calculate":
-                st.qassumes.append(QAssume(lambda j: z3.Implies(z3.And(j >= i, j < ser.length), z3.And(z3.Not(ser.has("I", N, j)), z3.Not(ser.has("S", N, j)))), "own-absent-from-i"))
+                for kk in [N] + data_keys:
+                    st.qassumes.append(QAssume(lambda j, kk=kk: z3.Implies(z3.And(j >= i, j < ser.length), z3.And(z3.Not(ser.has("I", kk, j)), z3.Not(ser.has("S", kk, j)))), f"absent-from-i[{_short(kk)}]"))
+            # every key is written to one of the two per-candle dicts only (no other indicator shares the
+            # name: premise of C13); data keys and helper keys live in sub_indicators
+            single = [(N, "S" if which == "I" else "I")] + [(kk, "I") for kk in data_keys] + [(b.N, "S" if b.which == "I" else "I") for b in bounds[1:]]
+            for kk, other in single:
+                st.qassumes.append(QAssume(lambda j, kk=kk, other=other: z3.Implies(z3.And(j >= 0, j < ser.length), z3.Not(ser.has(other, kk, j))), f"single-dict[{_short(kk)}]"))
             # frames
-            helpers = [SpecEval(ex, st, env).ev(h) for h in spec.helpers] + [b.N for b in bounds[1:] if b.role == "helper"]
+            helpers = data_keys + [b.N for b in bounds[1:] if b.role == "helper"]
             ser.read_frame = (0, i)
             if spec.window is not None:
                 W = to_int_term(SpecEval(ex, st, env).ev(spec.window))
